@@ -62,6 +62,15 @@ def tproj (c v : V3 K) : V3 K := v.sub (V3.smul (dot v c / dot c c) c)
 /-- `d_side = np.dot(np.cross(node_0, node_central), node_diff)` -/
 def side (c n0 d : V3 K) : K := dot (cross n0 c) d
 
+/-- the angle computed from the two (projected) vectors and the side value:
+    `arccos` of the normalised dot, clamped, reflected to `2π − θ` when `d_side > 0` -/
+def keyOfVecs (R : Num K) (clampLow : Bool) (z d : V3 K) (sd : K) : K :=
+  let dn := dot z d / (norm R z * norm R d)
+  let dn := if R.lt 1 dn then 1 else dn
+  let dn := if clampLow && R.lt dn (-1) then -1 else dn
+  let a := R.acos dn
+  if R.lt 0 sd then -a + R.twoPi else a
+
 /-- `d_angles[j]` of `_order_nodes` for the dual node at `s` (centre of a primal face), seen from
     the primal node `c`, relative to the first dual node `n0`. -/
 def keyWith (R : Num K) (repaired : Bool) (c n0 s : V3 K) : K :=
@@ -69,12 +78,17 @@ def keyWith (R : Num K) (repaired : Bool) (c n0 s : V3 K) : K :=
   let z := if repaired then tproj c z0 else z0
   let d0 := s.sub c
   let d := if repaired then tproj c d0 else d0
-  let sd := side c n0 d
-  let dn := dot z d / (norm R z * norm R d)
-  let dn := if R.lt 1 dn then 1 else dn
-  let dn := if repaired && R.lt dn (-1) then -1 else dn
-  let a := R.acos dn
-  if R.lt 0 sd then -a + R.twoPi else a
+  keyOfVecs R repaired z d (side c n0 d)
+
+/-- `vec − (vec·normal) normal`: the tangent part ONLY when `normal` is a unit vector.  Not what the
+    code does; kept as the model of a tempting simplification (`asis_unit_normal_helper_wrong`). -/
+def tprojUnit (c v : V3 K) : V3 K := v.sub (V3.smul (dot v c) c)
+
+/-- the key with `tprojUnit` in place of `tproj` (raw, possibly non-unit `c`) -/
+def keyUnitHelper (R : Num K) (c n0 s : V3 K) : K :=
+  let z := tprojUnit c (n0.sub c)
+  let d := tprojUnit c (s.sub c)
+  keyOfVecs R true z d (side c n0 d)
 
 end key
 
@@ -165,9 +179,16 @@ variable {K : Type} [Add K] [Sub K] [Mul K] [Div K] [Neg K] [OfNat K 0] [OfNat K
 def keyOfGeom (R : Num K) (repaired : Bool) (nodes cents : List (V3 K)) (i : Nat) (first f : Int) : K :=
   keyWith R repaired (vecAt nodes (Int.ofNat i)) (vecAt cents first) (vecAt cents f)
 
+def keyOfGeomUnitHelper (R : Num K) (nodes cents : List (V3 K)) (i : Nat) (first f : Int) : K :=
+  keyUnitHelper R (vecAt nodes (Int.ofNat i)) (vecAt cents first) (vecAt cents f)
+
 /-- `construct_dual` on coordinates -/
 def constructDual (R : Num K) (repaired filt : Bool) (nodes cents : List (V3 K)) (NF : Table) : Table :=
   constructFaces (dualRowWith filt R.lt 0 R.twoPi (keyOfGeom R repaired nodes cents)) NF
+
+/-- the same with the unit-normal helper as the projection (regression model only) -/
+def constructDualUnitHelper (R : Num K) (nodes cents : List (V3 K)) (NF : Table) : Table :=
+  constructFaces (dualRowWith true R.lt 0 R.twoPi (keyOfGeomUnitHelper R nodes cents)) NF
 
 end full
 
